@@ -21,6 +21,7 @@ type NativeRunner struct {
 	RtDir      string // /verif/harness/rt
 	tmp        string
 	overlays   map[string]string // pkg rel -> overlay json path
+	Skip       map[string]bool   // harness files (pkg rel + "/" + base name) set aside because they no longer compile
 }
 
 func NewNativeRunner(repo, harnessDir string) (*NativeRunner, error) {
@@ -41,13 +42,17 @@ func pkgNameOf(rel string) string {
 
 // HarnessNames lists VerifHarness_* functions defined in the harness dir of pkg.
 func HarnessNames(harnessDir, pkgRel string) ([]string, error) {
+	return HarnessNamesSkipping(harnessDir, pkgRel, nil)
+}
+
+func HarnessNamesSkipping(harnessDir, pkgRel string, skip map[string]bool) ([]string, error) {
 	ents, err := os.ReadDir(filepath.Join(harnessDir, pkgRel))
 	if err != nil {
 		return nil, err
 	}
 	var out []string
 	for _, e := range ents {
-		if !strings.HasSuffix(e.Name(), ".go") {
+		if !strings.HasSuffix(e.Name(), ".go") || skip[pkgRel+"/"+e.Name()] {
 			continue
 		}
 		b, err := os.ReadFile(filepath.Join(harnessDir, pkgRel, e.Name()))
@@ -84,6 +89,9 @@ func (n *NativeRunner) overlayFor(pkgRel string) (string, error) {
 		if !strings.HasSuffix(e.Name(), ".go") {
 			continue
 		}
+		if n.Skip[pkgRel+"/"+e.Name()] {
+			continue
+		}
 		src := filepath.Join(n.HarnessDir, pkgRel, e.Name())
 		repl[filepath.Join(n.RepoDir, pkgRel, e.Name())] = src
 	}
@@ -95,7 +103,7 @@ func (n *NativeRunner) overlayFor(pkgRel string) (string, error) {
 	rtPath := filepath.Join(dir, "zz_verif_rt.go")
 	os.WriteFile(rtPath, []byte(strings.Replace(string(rt), "package PKG", "package "+pkgName, 1)), 0o644)
 	repl[filepath.Join(n.RepoDir, pkgRel, "zz_verif_rt.go")] = rtPath
-	names, err := HarnessNames(n.HarnessDir, pkgRel)
+	names, err := HarnessNamesSkipping(n.HarnessDir, pkgRel, n.Skip)
 	if err != nil {
 		return "", err
 	}
